@@ -44,7 +44,8 @@ structure JState where
   committed : List CRec := []
   receipts : List RcptRec := []
   nodes : List NodeJ := [{}, {}, {}]
-  /-- digest id ↦ the (c,k,p) of the commit op during which the entry first appeared anywhere -/
+  /-- digest id ↦ the (c,p) of the commit op during which the entry first appeared anywhere (k is
+      kept for diagnostics only: records j < k of (c,k,p) and (c,k',p) are the same entries) -/
   bindings : List (Nat × Nat × Nat × Nat) := []
   /-- the case runs MessageDB stores with server-allocated, unkeyed records -/
   fresh : Bool := false
@@ -179,9 +180,9 @@ def bindNew (bs : List (Nat × Nat × Nat × Nat)) (cur : Obs) (c k p : Nat) : L
     st.entries.foldl (fun bs e =>
       if e.cmd == cs && !bs.any (fun b => b.1 == e.dig) then bs ++ [(e.dig, c, k, p)] else bs) bs) bs
 
-def JState.bindingOf (j : JState) (dig : Nat) : Option (Nat × Nat × Nat) :=
+def JState.bindingOf (j : JState) (dig : Nat) : Option (Nat × Nat) :=
   match j.bindings.find? (fun b => b.1 == dig) with
-  | some b => some b.2
+  | some b => some (b.2.1, b.2.2.2)
   | none => none
 
 /-- bookkeeping after one op (cur = the implementation's observation of it) -/
